@@ -24,7 +24,8 @@
                                                                    ([exit_code_verdict]: result_to_sh / result_to_pfh /
                                                                     MainStepResultTranslatorForUnconditionalSuccess)
       - execution/partial_execution/impl/atc_execution.py          ([act_res]: _register_outcome / _store_exit_code)
-      - impls/instructions/assert_/process_output                  (exit-code ==, stdout / stderr equals, on result/)
+      - impls/instructions/assert_/process_output                  (exit-code ==, stdout / stderr equals, on result/
+                                                                    or -from PROGRAM)
 
     Outside the model (oracles given by the harness): what a started process does (its exit code and what it writes:
     the k-th element of the oracle list is the outcome of the k-th process started), the contents of files, the
@@ -268,17 +269,19 @@ Definition select (ch : chan) (o : outcome) : text := match ch with COut => o_ou
     -ignore-exit-code). *)
 Definition part := (bool * text)%type.
 
-(** What the statement asks for: [string_source_of_mb_empty_sequence] - no part: no stdin (DEVNULL); else the
-    parts in order. *)
+(** [string_source_of_mb_empty_sequence] + [_ConcatStringSourceContents.write_to] (each writer flushes the file
+    before it hands the descriptor to a process): no part = no stdin (DEVNULL); else the parts in order. *)
 Definition assemble_in_order (parts : list part) : option text :=
   match parts with
   | [] => None
   | _ => Some (concat (map snd parts))
   end.
 
-(** What the code does ([_ConcatStringSourceContents.write_to] into ONE buffered text file, for texts smaller than
-    the buffer): a single part is used as it is; of several parts, those written through the descriptor reach the
-    file at once, those written through the file object when it is closed. *)
+(** What the code did BEFORE the repair 527f9c3 ("flush the file before a process writes to it via the descriptor"),
+    for texts smaller than the buffer: [_ConcatStringSourceContents.write_to] writes all parts into ONE buffered
+    text file; a single part is used as it is; of several parts, those written through the descriptor reached the
+    file at once, those written through the file object only when it was closed.  Kept for the refutation witness
+    of Props/C10.v; the current code flushes first, which gives [assemble_in_order]. *)
 Definition assemble_buffered (parts : list part) : option text :=
   match parts with
   | [] => None
@@ -290,8 +293,8 @@ Section Eval.
   (** How a program is resolved against a symbol table: [resolve_tbl] in the model, the declarative
       [denote] in the specification (Spec/C10.v). *)
   Variable resolver : table -> program -> res rprog.
-  (** How the stdin file is put together: [assemble_buffered] in the model, [assemble_in_order] in the
-      specification. *)
+  (** How the stdin file is put together: [assemble_in_order] (model and specification);
+      [assemble_buffered] for the code as it was before the repair. *)
   Variable assemble : list part -> option text.
 
   (** Is this part written through the descriptor of the file being built? *)
@@ -306,9 +309,10 @@ Section Eval.
     end.
 
   (** [eval_src]: the text a text source denotes (starting the processes it needs);
-      [run_command]: the stdin parts are materialised in order, then the process is started;
+      [eval_parts]: the parts of a stdin sequence are materialised in order, each tagged with the way it is written;
       [run_program]: resolve, evaluate driver and arguments, stdin = the program's parts followed by [extra]
-      (the stdin set in [setup], for the action to check). *)
+      (the stdin set in [setup], for the action to check), start the process.
+      One unit of fuel per nesting level and per element of a stdin sequence. *)
   Fixpoint eval_src (fuel : nat) (tbl : table) (cwd : text) (s : src) (w : world) : eres text :=
     match fuel with
     | O => EErr EOutOfFuel
@@ -324,6 +328,16 @@ Section Eval.
               else EHard w')
         end
     end
+  with eval_parts (fuel : nat) (tbl : table) (cwd : text) (l : list src) (w : world) : eres (list part) :=
+    match fuel with
+    | O => EErr EOutOfFuel
+    | S fuel' =>
+        match l with
+        | [] => EOk [] w
+        | s :: l' => ebind (eval_src fuel' tbl cwd s w) (fun t w' =>
+                     ebind (eval_parts fuel' tbl cwd l' w') (fun ts w'' => EOk ((src_is_direct tbl s, t) :: ts) w''))
+        end
+    end
   with run_program (fuel : nat) (tbl : table) (cwd : text) (p : program) (extra : list src) (w : world)
        : eres (outcome * list transformer) :=
     match fuel with
@@ -336,24 +350,11 @@ Section Eval.
             | Err e, _ => EErr e
             | _, Err e => EErr e
             | Ok d, Ok args =>
-                ebind ((fix go (l : list src) (w : world) : eres (list part) :=
-                          match l with
-                          | [] => EOk [] w
-                          | s :: l' => ebind (eval_src fuel' tbl cwd s w) (fun t w' =>
-                                       ebind (go l' w') (fun ts w'' => EOk ((src_is_direct tbl s, t) :: ts) w''))
-                          end) (r_stdin r ++ extra) w)
-                      (fun parts w' =>
-                         ebind (start_process (to_executable d args) (assemble parts) cwd w')
-                               (fun o w'' => EOk (o, r_tr r) w''))
+                ebind (eval_parts fuel' tbl cwd (r_stdin r ++ extra) w) (fun parts w' =>
+                ebind (start_process (to_executable d args) (assemble parts) cwd w') (fun o w'' =>
+                EOk (o, r_tr r) w''))
             end
         end
-    end.
-
-  Fixpoint eval_srcs (fuel : nat) (tbl : table) (cwd : text) (l : list src) (w : world) : eres (list part) :=
-    match l with
-    | [] => EOk [] w
-    | s :: l' => ebind (eval_src fuel tbl cwd s w) (fun t w' =>
-                 ebind (eval_srcs fuel tbl cwd l' w') (fun ts w'' => EOk ((src_is_direct tbl s, t) :: ts) w''))
     end.
 
   (** A command that is not a program (the interpreter actors): only the given stdin. *)
@@ -362,7 +363,7 @@ Section Eval.
     match driver_value tbl d with
     | Err e => EErr e
     | Ok dv =>
-        ebind (eval_srcs fuel tbl cwd stdin w) (fun parts w' =>
+        ebind (eval_parts fuel tbl cwd stdin w) (fun parts w' =>
           start_process (to_executable dv args) (assemble parts) cwd w')
     end.
 
@@ -384,7 +385,9 @@ Section Eval.
   | IStdin (s : src)                  (* [setup] stdin = SRC *)
   | IExitCode (k : N)                 (* [assert] exit-code == k *)
   | IStdout (t : text)                (* [assert] stdout equals t *)
-  | IStderr (t : text).               (* [assert] stderr equals t *)
+  | IStderr (t : text)                (* [assert] stderr equals t *)
+  | IExitCodeFrom (p : program) (k : N)            (* [assert] exit-code -from PROGRAM == k *)
+  | IOutFrom (ch : chan) (p : program) (t : text). (* [assert] stdout / stderr -from PROGRAM equals t *)
 
   Inductive act :=
   | ActCommand (p : program)                                    (* actor = command : [act] is a PROGRAM *)
@@ -440,6 +443,20 @@ Section Eval.
         match st_act st with
         | Some o => Ok (text_verdict t (o_err o), st)
         | None => Err ENoActResult
+        end
+    | IExitCodeFrom p k =>
+        (* getter_from_program: the program is run; its exit code is the model of the matcher *)
+        match run_program fuel (st_tbl st) (st_cwd st) p [] (st_world st) with
+        | EOk otr w => Ok (if o_code (fst otr) =? k then StPass else StFail, set_world st w)
+        | EHard w => Ok (StHard, set_world st w)
+        | EErr e => Err e
+        end
+    | IOutFrom ch p t =>
+        (* the chosen channel after the program's transformations; the exit code is not looked at *)
+        match run_program fuel (st_tbl st) (st_cwd st) p [] (st_world st) with
+        | EOk otr w => Ok (text_verdict t (apply_trs (snd otr) (select ch (fst otr))), set_world st w)
+        | EHard w => Ok (StHard, set_world st w)
+        | EErr e => Err e
         end
     end.
 
@@ -561,4 +578,8 @@ End Eval.
 
 (** The model: programs are resolved as the code does it. *)
 Definition run_case : nat -> text -> table -> tcase -> list outcome -> res result :=
+  run_case_with resolve_tbl assemble_in_order.
+
+(** The code as it was before the repair 527f9c3. *)
+Definition run_case_prefix : nat -> text -> table -> tcase -> list outcome -> res result :=
   run_case_with resolve_tbl assemble_buffered.
